@@ -26,8 +26,13 @@ blank lines, nested conditionals, `#define/#undef`), rarely a fixed-form `.f` fi
 `get_file_source` raises).  The model picks the front end by the extension as the code does (`C06L.parseSrcL`: C05 model
 for the C family, C17 model `Fortran.fortranSource` / `group` / `pnodeOf` for Fortran); the spec side of a Fortran file is
 C17's reference scanner (`Fortran.refText`: counted lines; `Fortran.refNodes`: their grouping) under C17's guard (inside WF,
-no F-C17-1 line) and the same C01 reference machine per `-D` list.  For a Fortran file the grouping of the counted lines
-into nodes is compared here (not proved): `Props/C06Fortran.lean`, `FortranGroupsAreReference`.
+no F-C17-1 line) and the same C01 reference machine per `-D` list.  The grouping of the counted lines of a Fortran file into
+nodes is PROVED for the model (`C17.nodes_eq_ref`, `C06.fortran_groups_are_reference`, `C06.line_attribution_is_reference_mixed`)
+under the FULL guard — additionally no line of finding class F-C17-2 (`Spec/FortranHash.lean`: a continuation line whose `#`
+opens the text of a statement that began with lone `&` lines; the code reads it as a preprocessor directive) — and compared
+here as well; the driver reports the F-C17-2 lines per file (`hash`) and `wf` requires the full guard.  The generator puts
+lone `&` lines in front of statements (inside the full guard) and, rarely, an F-C17-2 line (outside it: model comparison only — the
+model reads the line as a directive, `C17.finding_F_C17_2`, and so must the implementation).
 """
 from __future__ import annotations
 
@@ -95,7 +100,33 @@ def gen_ftext(rng):
     text = C17.g_program(rng, depth=rng.randint(1, 3), size=rng.randint(3, 14), split=rng.choice([0.0, 0.0, 0.0, 0.0, 0.0, 0.15]))
     if rng.random() < 0.04:
         text = C17.mutate_text(rng, text)
+    r = rng.random()
+    if r < 0.16:
+        text = lone_amp(rng, text, hash_head=r < 0.04)
     return text, list(C17.NAMES)
+
+
+def lone_amp(rng, text, hash_head=False):
+    """a statement that BEGINS with lines holding only `&` (F2018 6.3.2.4 forbids them, compilers warn, the C17 reference accepts
+    them), put where a statement can start for sure: at the top of the text or right after a preprocessor directive line.
+    hash_head: the first text of that statement is a `#` on a continuation line — finding class F-C17-2"""
+    lines = text.split("\n")
+    spots = [0] + [i + 1 for i, ln in enumerate(lines[:-1]) if ln.lstrip().startswith("#")]
+    at = rng.choice(spots)
+    lead = [rng.choice(["&", "  &", "& ! c", "&  "])]
+    if rng.random() < 0.4:
+        lead.append(rng.choice(["", "  ! note", "& &", " &&"]))
+    if hash_head:
+        body = [rng.choice(["&", " & ", "  "]) + rng.choice(["#define " + rng.choice(C17.NAMES), "#undef " + rng.choice(C17.NAMES),
+                                                                  "#3", "# foo"])]
+        if rng.random() < 0.3:
+            body[0] += " &"
+            body.append("  & + 1")
+    else:
+        body = [rng.choice(["&", " & ", "  "]) + rng.choice(["la = 1", "lb = 'a#b' // &", "!$omp barrier", "lc = 2 ! #c"])]
+        if body[0].endswith("&"):
+            body.append(rng.choice(["  &'#'", "  & #x", "'c'"]))
+    return "\n".join(lines[:at] + lead + body + lines[at:])
 
 
 def gen_case(rng, fortran=True):
@@ -252,7 +283,7 @@ def compare(case, impl, cov, rep, rep1, root=None):
                     spec_p.append(f"{'/'.join(p)}: a line belongs to two nodes")
                 groups = [lines for _, _, lines in impl["files"].get(p, [])]
                 if sorted(got) == sf["counted"] and groups != [ls for _, ls in sf["nodes"]]:
-                    # proved for the model of a C-family file (C05.nodes_of_ok); for a Fortran file this comparison is the evidence
+                    # proved for the model: C05.nodes_of_ok (C family), C17.nodes_eq_ref / C06.fortran_groups_are_reference (Fortran)
                     spec_p.append(f"{'/'.join(p)}: the nodes hold the lines {groups} but the specification of {sf.get('lang', 'c')} groups "
                                   f"the counted lines as {[ls for _, ls in sf['nodes']]}")
                 if sorted(got) != sf["counted"]:
@@ -397,6 +428,8 @@ def run_one(ctx, drv, case, origin):
         for sf in rep["spec"]["files"]:
             if sf.get("lang") == "fortran-free":
                 ctx.dist["txt:fortran file inside the C17 guard" if sf["guard"] else "txt:fortran file outside the C17 guard"] += 1
+                if sf.get("hash"):
+                    ctx.dist["txt:fortran file with an F-C17-2 line (outside the full guard)"] += 1
     ctx.dist["txt:coverage computed" if cov is not None else "txt:no platform for coverage"] += 1
     for f in case["files"]:
         if f.get("eol"):
